@@ -720,7 +720,8 @@ func handleRandomkey(params internal.HandlerFuncParams) ([]byte, error) {
 
 	key := params.Randomkey(params.Context)
 
-	return []byte(fmt.Sprintf("+%v\r\n", key)), nil
+	// A key is arbitrary bytes: it is sent as a bulk string (a simple string cannot carry CR or LF).
+	return []byte(fmt.Sprintf("$%d\r\n%s\r\n", len(key), key)), nil
 }
 
 func handleGetdel(params internal.HandlerFuncParams) ([]byte, error) {
